@@ -320,13 +320,18 @@ PROPERTIES["C11"] = {
 PROPERTIES["C19"] = {
     "level": "other",
     "level_text": "bounded symbolic verification: for every domain (symbolic min/max for real parameters, windowed concrete bounds for integer ones, both comparator kinds) and every history of assignments of the configured length (symbolic reals, NaN/inf/boundary values, integers, strings from a small alphabet) the real parameter_t accepts exactly the in-domain values, reads them back as assigned, and rejects the others with an exception leaving the previous value",
-    "level_note": SRE_NOTE,
-    "technique": SRE_TECH,
+    "level_note": SRE_NOTE + "; " + SBV_NOTE,
+    "technique": SRE_TECH + "; parameter look-up by a symbolic name and kind-mismatched reads (unit C19_names) by " + SBV_TECH,
     "explanation": "C19: factory clause (unit C19_factory: every registered solver, line-search, loss, splitter, tuner, weak learner, linear model: id, defaults inside their domains, clone equality, independent modification with SYMBOLIC in-domain / out-of-domain values); first sentence: parameter_t::make_{scalar,integer,scalar_pair,integer_pair}, operator= (double, int64, tuple, string), value<>/value_pair<>, write/read round trip against a reference model written from the property.",
     "assumptions": SRE_ASSUME + ["integer parameters: symbolic real assignments boxed to [-5.75, 6.75] (float->int conversion enumerated by the solver); out-of-range float->int conversion is UB in the source and outside the claim"],
     "bounds": {"history length": "<= 3 (quick), <= 4 (thorough)", "integer window": "[-2,3]", "comparators": "all LE/LT combinations"},
     "outside": ["parsing of arbitrary text (stod/stoll on garbage beyond the 4-string alphabet)", "factory clause 'behaves identically' (behavioural equivalence of clones beyond equal parameters)", "data-source, generator and function factories (objects that need files / have no parameters / are covered by C06)"],
     "units": [
+        {"engine": "sbv", "harness": "C19_names", "sources": ["C19_names.cpp", "sbv_support.cpp"],
+         "quick": ["L=3", "L=4", "obj=solver;L=16", "obj=solver;L=22"],
+         "thorough": ["L=3", "L=4", "L=5", "obj=solver;L=16", "obj=solver;L=22", "obj=solver;L=28"],
+         "budget": {"quick": {"deadline_s": 100, "max_paths": 20000, "query_s": 20}, "thorough": {"deadline_s": 900, "max_paths": 200000, "query_s": 60}},
+         "encoded": ["nano::configurable_t::{register_parameter, parameter_if, parameter} + the file-local find_param with a SYMBOLIC name (every byte string up to the configured length)", "nano::parameter_t::{value<T>, value_pair<T>} kind checks (integer, scalar, pair, enumeration, string)"]},
         {"engine": "sre", "harness": "C19_params", "sources": ["C19_params.cpp"],
          "quick": ["kind=fr;lo=%d;hi=%d;ops=3;ser=%d" % (a, b, a) for a in (0, 1) for b in (0, 1)] + ["kind=fr;lo=0;hi=1;ops=2;sp=%d" % s for s in (1, 2, 3, 4, 5)] +
                   ["kind=fp;ops=2;lo=0;mid=0;hi=0", "kind=fp;ops=2;lo=1;mid=1;hi=1", "kind=fp;ops=1;sp=1", "kind=ir;ops=2;lo=0;hi=1", "kind=ir;ops=2;lo=1;hi=0",
@@ -414,9 +419,11 @@ PROPERTIES["C08"] = {
          "encoded": ["nano::dataset_t::{flatten, select, targets, drop, undrop, shuffle, unshuffle, shuffled, columns, column2feature, feature}", "nano::elemwise_generator_t<identity>::{flatten, select_*}",
                      "nano::datasource_t::{resize, set, visit}", "nano::feature_storage_t::set", "nano::generator_t::{shuffle, shuffled, should_drop, flatten_dropped}"]},
         {"engine": "sbv", "harness": "C08_storage", "sources": ["C08_storage.cpp", "sbv_support.cpp"], "env": {"SBV_MERGE_CAP": "300"},
-         "quick": ["f=sa;n=2;cls=3", "f=mbe;n=2", "f=dcr;n=2", "f=sm;n=2;cls=2", "f=s;n=1;cls=256;rep=0", "f=s;n=1;cls=257;rep=0", "f=s;n=1;cls=255;rep=0", "f=ms;n=1;cls=4", "f=s;n=1;cls=3;rep=0;bad=1", "f=s;n=1;cls=256;rep=0;bad=1", "f=sa;n=2;cls=300;rep=0;bad=1"],
+         "quick": ["f=sa;n=2;cls=3", "f=mbe;n=2", "f=dcr;n=2", "f=sm;n=2;cls=2", "f=s;n=1;cls=256;rep=0", "f=s;n=1;cls=257;rep=0", "f=s;n=1;cls=255;rep=0", "f=ms;n=1;cls=4", "f=s;n=1;cls=3;rep=0;bad=1", "f=s;n=1;cls=256;rep=0;bad=1", "f=sa;n=2;cls=300;rep=0;bad=1",
+                   "f=ca;n=1;gen=product;rep=0", "f=ab;n=1;gen=product;rep=0", "f=dc;n=1;gen=product;rep=0", "f=EE;n=2;gen=product;rep=0"],
          "thorough": ["f=%s;n=%d;cls=%d" % t for t in (("sa", 2, 3), ("mbe", 2, 3), ("dcr", 2, 3), ("sm", 3, 2), ("ab", 3, 3), ("es", 2, 5), ("rm", 2, 3), ("cd", 2, 3), ("sss", 2, 3))] +
-                     ["f=s;n=1;cls=%d;rep=0" % c for c in (2, 255, 256, 257)] + ["f=s;n=2;cls=256;rep=1", "f=ms;n=1;cls=4", "f=s;n=1;cls=3;rep=0;bad=1", "f=s;n=1;cls=256;rep=0;bad=1", "f=sa;n=2;cls=300;rep=0;bad=1", "f=s;n=2;cls=65536;rep=0;bad=1"],
+                     ["f=s;n=1;cls=%d;rep=0" % c for c in (2, 255, 256, 257)] + ["f=s;n=2;cls=256;rep=1", "f=ms;n=1;cls=4", "f=s;n=1;cls=3;rep=0;bad=1", "f=s;n=1;cls=256;rep=0;bad=1", "f=sa;n=2;cls=300;rep=0;bad=1", "f=s;n=2;cls=65536;rep=0;bad=1"] +
+                     ["f=%s;n=%d;gen=product;rep=0" % t for t in (("ca", 1), ("ab", 1), ("dc", 1), ("EE", 2), ("cab", 2), ("be", 1), ("aE", 2), ("ca", 2))],
          "budget": {"quick": {"deadline_s": 150, "max_paths": 20000, "query_s": 20}, "thorough": {"deadline_s": 1200, "max_paths": 200000, "query_s": 60}},
          "encoded": ["nano::datasource_t::{resize, set (every storage type), load, visit}", "nano::feature_storage_t / update_size_storage (storage type selection by class count)", "nano::setbit/getbit masks (symbolic given/missing pattern)",
                      "nano::dataset_t::{add, flatten, select, targets, columns, column2feature, feature}", "nano::elemwise_generator_t<sclass/mclass/scalar identity>::{flatten, select}", "nano::feature_t"]},
@@ -471,7 +478,7 @@ PROPERTIES["C15"] = {
                                  "LIFT-C unit: payload length <= 3 elements (uint8: <= 4)"],
     "bounds": {"ranks": "1..3", "dims": "0..3 per axis (negative dims in dedicated configurations)", "buffer length": "<= 48 bytes", "scalar types": "int8, uint8, uint16, int32, int64, float32, float64",
                "LIFT-C": "<= 3 elements (uint8: 4), unwind 4..6"},
-    "outside": ["serialization of features, weak learners and models (linear, gboost): not covered; parameters, strings and configurable objects (solvers) are covered by unit C15_objects for round trip and prefix rejection",
+    "outside": ["serialization of whole models (linear, gboost): not covered (features: unit C15_objects mode=feature; fitted weak learners: unit C15_wlearners); parameters, strings and configurable objects (solvers) are covered by unit C15_objects for round trip and prefix rejection",
                 "bit-identical predictions of re-read models", "file-backed or refilling stream buffers", "tensors with more than 8 elements",
                 "known finding: a single-byte alteration of a NON-final element can keep the hash (hash_combine not injective in its seed); covered by the LIFT-C unit and recorded in known_findings.jsonl"],
     "units": [
@@ -499,9 +506,11 @@ PROPERTIES["C15"] = {
                      "tensor_t::resize / tensor_vector_storage_t (Eigen storage)", "std::istream::read, std::ostream::write, basic_ios::clear/setstate (native libstdc++ on concrete stream state)"]},
         {"engine": "sbv", "harness": "C15_objects", "sources": ["C15_objects.cpp"],
          "quick": ["mode=param;kind=f", "mode=param;kind=f;lt=1;ltmax=1", "mode=param;kind=i", "mode=param;kind=i;lt=1", "mode=param;kind=fp", "mode=param;kind=ip", "mode=param;kind=e",
-                   "mode=string;len=4", "mode=string;len=0", "mode=config;id=gd", "mode=config;id=lbfgs;step=11"],
+                   "mode=string;len=4", "mode=string;len=0", "mode=config;id=gd", "mode=config;id=lbfgs;step=11",
+                   "mode=feature;kind=s;dst=1", "mode=feature;kind=s;dst=0;cdims=1", "mode=feature;kind=m;dst=2", "mode=feature;kind=m;dst=1;cdims=1", "mode=feature;kind=r;dst=1", "mode=feature;kind=t;dst=2", "mode=feature;kind=t;dst=0"],
          "thorough": ["mode=param;kind=%s;lt=%d;ltmax=%d" % (k, a, b) for k in ("f", "i", "fp") for a in (0, 1) for b in (0, 1)] + ["mode=param;kind=ip", "mode=param;kind=e",
-                      "mode=string;len=4", "mode=string;len=0", "mode=string;len=17"] + ["mode=config;id=%s;step=1" % i for i in ("gd", "lbfgs", "cgd-pr", "osga")],
+                      "mode=string;len=4", "mode=string;len=0", "mode=string;len=17"] + ["mode=config;id=%s;step=1" % i for i in ("gd", "lbfgs", "cgd-pr", "osga")] +
+                     ["mode=feature;kind=%s;dst=%d;cdims=%d" % (k, d, c) for k in ("s", "m", "r", "t") for d in (0, 1, 2, 3) for c in (0, 1) if not (c and k in ("r", "t"))],
          "budget": {"quick": {"deadline_s": 100, "max_paths": 20000, "query_s": 20}, "thorough": {"deadline_s": 900, "max_paths": 200000, "query_s": 60}},
          "encoded": ["nano::parameter_t::{write, read, operator==, value, value_pair, make_scalar, make_integer, make_scalar_pair, make_integer_pair, make_enum, make_string}", "(anonymous)::read/write(range_t, pair_range_t)",
                      "nano::configurable_t::{write, read, parameter, parameters}", "nano::read/write(std::string), read/write(std::vector<parameter_t>)", "nano::solver_t::all / factory_t::get (std::call_once emulated)", "nano::critical (exception path)"]},
@@ -593,14 +602,20 @@ PROPERTIES["C09"] = {
 PROPERTIES["C10"] = {
     "level": "other",
     "level_text": "bounded symbolic verification: for every value of the symbolic gradients (and feature cells where stated) the score returned by stump / affine / dense-table fitting equals the RSS of the learner's own predictions and is <= the RSS of every hypothesis of its class (hypothesis parameters universally quantified: any threshold for stumps with group-mean outputs, normal equations + every other feature for affine, any per-label table for dense tables); predictions are additive, zero on missing values, constant per split() group, and scale() multiplies them",
-    "level_note": SRE_NOTE,
-    "technique": SRE_TECH,
+    "level_note": SRE_NOTE + "; " + SBV_NOTE,
+    "technique": SRE_TECH + "; decision trees of depth 2 / 3 (prediction, split, scale on symbolic missing-value patterns and sample sub-lists) by " + SBV_TECH,
     "explanation": "C10: wlearner_t::fit/predict/split/scale/clone of stump, affine, dense-table, hinge, dstep/kbest/ksplit-table learners and depth-1 trees through the real dataset + select_iterator stack with the RSS criterion; merging of learners.",
     "assumptions": SRE_ASSUME + ["gradients boxed to [-8,8]; feature cells symbolic in [-8,8] (cx=0) or concrete (cx=1)", "one output (regression target)", "RSS criterion (make_score clamps at 1e3*epsilon; reference clamps identically)"],
     "bounds": {"samples": "3..4", "features": "1..3 scalar / 1..2 categorical (3 classes)", "missing patterns": "0, 1", "sample subsets": "all / with repetition"},
-    "outside": ["decision trees of depth > 1; optimality of hinge with fully symbolic features and gradients (nlsat returns unknown: unit C10_more uses concrete feature values and 1-3 symbolic gradients, thorough tier attempts the symbolic case)",
+    "outside": ["FITTING of decision trees of depth > 1 (their prediction / split / scale on an installed fitted state is covered by the SBV unit C10_dtree); optimality of hinge with fully symbolic features and gradients (nlsat returns unknown: unit C10_more uses concrete feature values and 1-3 symbolic gradients, thorough tier attempts the symbolic case)",
                 "k-best / k-split tables: only the clauses the property states for every learner (zero where unassigned, constant per group, scale); the equality score = RSS of own predictions is NOT demanded of them (see DESIGN.md: k-best tables with >= 2 labels violate it)", "real concurrency (the threads=K configurations run the enqueue path sequentialised: any assignment of features to workers, min-reduction over per-worker caches)", "more than 4 samples with fully symbolic data (nlsat returns unknown on the optimality inequalities)", "aic/aicc/bic criteria (log)"],
     "units": [
+        {"engine": "sbv", "harness": "C10_dtree", "sources": ["C10_dtree.cpp", "sbv_support.cpp"], "flags": ["-fno-access-control"],
+         "quick": ["depth=2;n=3", "depth=2;n=2;rep=1", "depth=3;n=1", "depth=3;n=2"],
+         "thorough": ["depth=2;n=3", "depth=2;n=3;rep=1", "depth=2;n=4", "depth=3;n=1", "depth=3;n=2", "depth=3;n=2;rep=1"],
+         "budget": {"quick": {"deadline_s": 150, "max_paths": 40000, "query_s": 20}, "thorough": {"deadline_s": 1500, "max_paths": 400000, "query_s": 60}},
+         "encoded": ["nano::dtree_wlearner_t::{do_predict, do_split, scale} on an installed fitted state (node pairs, leaf tables) of depth 2 / 3", "nano::stump_wlearner_t::split (per-node partition)", "nano::wlearner_t::{predict, split}, nano::learner_t::critical_compatible",
+                     "nano::select_iterator_t::loop(samples, feature, ...), nano::dataset_t::select / check with symbolic given-masks and arbitrary (also empty) sub-lists"]},
         {"engine": "sre", "harness": "C10_wlearner", "sources": ["C10_wlearner.cpp"],
          "quick": ["wl=stump;f=rr;n=3", "wl=stump;f=rrr;n=3;miss=1", "wl=stump;f=rrr;n=4;cx=1;sub=1", "wl=affine;f=rr;n=3", "wl=affine;f=rrr;n=4;cx=1", "wl=affine;f=rrr;n=3;cx=1;miss=1",
                    "wl=dense-table;f=sr;n=3", "wl=dense-table;f=ssr;n=4;miss=1", "wl=dense-table;f=smr;n=4;cx=1",
@@ -685,6 +700,11 @@ PROPERTIES["C04"] = {
     "outside": ["the Newton iteration itself (LDLT on symbolic KKT systems for >= 10 iterations): optimality after convergence is covered only through the status decision on arbitrary iterates",
                 "never `converged` on infeasible/unbounded programs beyond the start rejection", "programs with more than 2 variables (nlsat returns unknown on the normalisation norms)"],
     "units": [
+        {"engine": "sre", "harness": "C04_reduce", "sources": ["C04_reduce.cpp"],
+         "quick": ["rows=%d;extra=%d;dup=%d;dir=%d;pos=%d" % t for t in ((2, 1, 0, 0, 2), (2, 1, 0, 1, 2), (2, 1, 0, 1, 0), (2, 1, 1, 1, 0), (2, 1, 1, 0, 1), (2, 2, 0, 1, 1), (2, 2, 1, 1, 2), (1, 1, 0, 1, 0), (1, 2, 0, 1, 1), (2, 0, 0, 1, 0), (1, 0, 0, 0, 0))],
+         "thorough": ["rows=%d;extra=%d;dup=%d;dir=%d;pos=%d" % (r, e, d, di, po) for r in (1, 2) for e in (0, 1, 2) for d in (0, 1) for di in (0, 1) for po in (0, 1, 2) if not (e == 0 and (d or po))],
+         "budget": {"quick": {"deadline_s": 60, "max_paths": 4000, "query_s": 10}, "thorough": {"deadline_s": 300, "max_paths": 50000, "query_s": 30}},
+         "encoded": ["nano::program::reduce(A, b) (Eigen FullPivLU of [A|b]^T with symbolic row-combination coefficients, rank decision, reconstruction of the independent rows)"]},
         {"engine": "sre", "harness": "C04_program", "sources": ["C04_program.cpp"], "exclude": ["program__solver"],
          "quick": ["mode=done;n=1;m=1", "mode=done;n=1;m=2;qd=1", "mode=done;n=1;m=1;p=1;qd=1", "mode=gap;n=1;m=1;lp=1", "mode=gap;n=1;m=1;qd=1", "mode=eq;n=2;p=1;lp=1", "mode=eq;n=2;p=2;lp=1;dup=1",
                    "mode=x0;n=2;m=2;lp=1", "mode=x0;n=1;m=2;qd=1"],
